@@ -7,8 +7,8 @@ from lib.rec import Rec
 
 LEVEL = "exploration"
 RULE = ("G5 trees (local and server) with random attribute data written by the harness straight into the sidecar files (own writer, path "
-        "from the configuration's get_data_json_path) x G4 searches x every subset of a 3-key attribute pool x three sid_encode functions "
-        "(str, uri, None). list(GetFromPaths(c).get(...)) is aligned one-to-one, in order, with list(FindInPaths(c).find(s)); record content "
+        "from the configuration's get_data_json_path) x G4 searches x every subset of a 3-key attribute pool x six sid_encode functions "
+        "(str, uri, None, fields dict, keytype - not injective -, version - sometimes None). list(GetFromPaths(c).get(...)) is aligned one-to-one, in order, with list(FindInPaths(c).find(s)); record content "
         "is compared with the sidecar content; GetFromAll is compared with GetFromPaths on types that have a configured Getter and must yield "
         "nothing (without failing) for types configured without one; get_one / get_data / get_attr are compared with the records. "
         "Non-trivial = distinct (universe, search, attributes, encoder) with at least one record.")
@@ -21,11 +21,13 @@ KEYS = ["comment", "frames", "author"]
 
 def shard_args(tier, seed):
     u, k = BUDGET[tier]
-    return [{"universes": max(1, u // NSHARDS), "searches": k, "seed": seed * 1000 + i} for i in range(NSHARDS)]
+    return [{"universes": max(1, u // NSHARDS), "searches": k, "seed": seed * 1000 + i, "dataconf_variant": i % 3 == 1} for i in range(NSHARDS)]
 
 
 def envs(snap, shard_args_list):
-    return [snap.env(conf_dir=snap.conf_copy("w%d" % i)) for i in range(len(shard_args_list))]
+    # every third shard runs under a second data configuration (Finders / Getters created once per path configuration, dispatching on 'config')
+    from lib import dataconf_variant
+    return dataconf_variant.envs(snap, shard_args_list)
 
 
 def floors(m, tier):
@@ -37,6 +39,7 @@ def floors(m, tier):
             "falsy stored values read": (c.get("falsy_values", 0), u),
             "GetFromAll comparisons": (c.get("all_calls", 0), u * k // 4),
             "types without getter": (c.get("all_no_getter", 0), u),
+            "GetFromAll(non-default config) comparisons (second data configuration)": (c.get("all_calls_non_default_config", 0), u * k // 40),
             "get_one/get_data/get_attr": (c.get("single_calls", 0), u * 5)}
 
 
@@ -44,7 +47,9 @@ def run(snap, tier, seed, t0, replay):
     return driver.simple_run("C16", snap, tier, seed, t0, replay, LEVEL, RULE, ASSUME, shard_args, floors_fn=floors, envs_fn=envs)
 
 
-ENC = {"str": str, "uri": (lambda x: x.uri), "none": (lambda x: None)}
+ENC = {"str": str, "uri": (lambda x: x.uri), "none": (lambda x: None),
+       # the encoder is the caller's: unhashable, non-injective, sometimes-None encodings are as good as any
+       "fields": (lambda x: x.fields), "keytype": (lambda x: x.keytype), "version": (lambda x: x.get("version"))}
 
 
 def write_sidecars(lab, rng, conf):
@@ -140,10 +145,14 @@ def check_get(rec, lab, conf, store, c, s, attributes, encname, case):
                     rec.violation("get_attr_differs", dict(cs, sid=str(x), key=k), "%r vs %r" % (g.get_attr(x, k), full.get(k)))
     except Exception as e:
         rec.violation("single_call_raised", cs, repr(e))
-    # GetFromAll (default path configuration)
-    if c == lab.default_config and ">" not in s:
+    # GetFromAll (default path configuration; any configuration when the data configuration dispatches on it)
+    if (c == lab.default_config or lab.dataconf_variant) and ">" not in s:
         try:
-            allrecs = [dict(r) for r in GetFromAll().get(s, sid_encode=ENC[encname], **kw)]
+            if c != lab.default_config:
+                rec.count("all_calls_non_default_config")
+                allrecs = [dict(r) for r in GetFromAll(c).get(s, sid_encode=ENC[encname], **kw)]
+            else:
+                allrecs = [dict(r) for r in GetFromAll().get(s, sid_encode=ENC[encname], **kw)]
         except SpilException:
             return
         except Exception as e:
@@ -188,7 +197,8 @@ def worker(args):
         data_seed = rng.randrange(10 ** 9)
         store = write_sidecars(lab, random.Random(data_seed), conf)
         uid = "%s-%d" % (args.get("seed"), u)
-        case = {"ents": ents, "names": lab.names, "only_default": lab.only_default, "uid": uid, "data_seed": data_seed}
+        case = {"ents": ents, "names": lab.names, "only_default": lab.only_default, "uid": uid, "data_seed": data_seed,
+                "dataconf_variant": lab.dataconf_variant}
         for k in range(args["searches"]):
             s, info = lab.search(allow_last=(rng.random() < 0.15))
             if filter_is_unspecified(s):
